@@ -98,10 +98,10 @@ Proof.
 Qed.
 
 (* ---------------------------------------------------------------------------------------- *)
-Theorem rt_check_sound ts prog n : rt_check ts prog n = true ->
-  exists d, emit_file ts prog n = EmOk d /\ sexp_ok d = true /\ elab_file d = Ok (norm_file n).
+Theorem rt_check_sound ts prog fl n : rt_check ts prog fl n = true ->
+  exists d, emit_file ts prog fl n = EmOk d /\ sexp_ok d = true /\ elab_file d = Ok (norm_file n).
 Proof.
-  unfold rt_check, rt_status. destruct (emit_file ts prog n) as [d| |]; try discriminate.
+  unfold rt_check, rt_status. destruct (emit_file ts prog fl n) as [d| |]; try discriminate.
   destruct (sexp_ok d) eqn:Hok; cbn [negb]; try discriminate.
   destruct (elab_file d) as [n'|e] eqn:He.
   - destruct (file_eqb n' (norm_file n)) eqn:Hq; try discriminate.
@@ -122,8 +122,8 @@ Proof.
 Qed.
 
 (* from characters: the text of the written document, through the tokenizer and the reader *)
-Theorem rt_check_text ts prog n : rt_check ts prog n = true ->
-  exists t, emit_text ts prog n = EmOk t /\ elab_text t = Ok (norm_file n).
+Theorem rt_check_text ts prog fl n : rt_check ts prog fl n = true ->
+  exists t, emit_text ts prog fl n = EmOk t /\ elab_text t = Ok (norm_file n).
 Proof.
   intros H. apply rt_check_sound in H as (d & Hd & Hok & He).
   exists (print d). unfold emit_text. rewrite Hd. split; auto.
@@ -131,9 +131,9 @@ Proof.
 Qed.
 
 (* the only inputs of the writer model are the value, the timestamp fields and the program metadata *)
-Theorem emit_timestamp_only ts ts' prog n d : emit_file ts prog n = EmOk d ->
+Theorem emit_timestamp_only ts ts' prog fl n d : emit_file ts prog fl n = EmOk d ->
   Forall (fun a => atom_ok a = true) ts' -> List.length ts' = List.length ts ->
-  exists d', emit_file ts' prog n = EmOk d'.
+  exists d', emit_file ts' prog fl n = EmOk d'.
 Proof.
   unfold emit_file. destruct (nf_top n); try discriminate.
   destruct (negb _); try discriminate.
@@ -215,9 +215,9 @@ Qed.
 
 (* two writes of a netlist that the first write left in dependency order produce the same
    document, whatever the timestamps: the second pre-pass is the identity and emit_file is a function *)
-Theorem emit_second_write ts prog n n1 : prepass n = Some n1 -> ordered n1 = true ->
+Theorem emit_second_write ts prog fl n n1 : prepass n = Some n1 -> ordered n1 = true ->
   prepass n1 = Some n1 /\
-  forall n2, prepass n1 = Some n2 -> emit_file ts prog n2 = emit_file ts prog n1.
+  forall n2, prepass n1 = Some n2 -> emit_file ts prog fl n2 = emit_file ts prog fl n1.
 Proof.
   intros _ Ho. split; [now apply prepass_ordered|].
   intros n2 H2. rewrite (prepass_ordered _ Ho) in H2. now inversion H2.
@@ -252,8 +252,8 @@ Definition ex_ts : list str := map S_ ["2026"; "10"; "01"; "23"; "00"; "00"]%str
 
 Example emit_roundtrip_example :
   writable ex_file = true /\ params_w ex_ts None = true /\ ordered ex_file = true /\
-  rt_check ex_ts None ex_file = true /\
-  emit_text ex_ts None ex_file = EmOk (S_
+  rt_check ex_ts None [] ex_file = true /\
+  emit_text ex_ts None [] ex_file = EmOk (S_
     ("(edif (rename design_1 ""design 1"") (edifversion 2 0 0) (edifLevel 0) (keywordmap (keywordlevel 0)) " ++
      "(status (written (timeStamp 2026 10 01 23 00 00) (comment ""Built by 'BYU spydrnet tool'""))) " ++
      "(Library prims (edifLevel 0) (technology (numberDefinition)) " ++
@@ -281,5 +281,21 @@ Definition ex_amp : nvfile :=
           [(S_ "$b", S_ "&_b", mkcab 0 false [[PTop (S_ "a") 0]; [PTop (S_ "a") 1]])]]]
     (Some (mktop (S_ "t") (S_ "t") (S_ "work") (S_ "t"))).
 Example emit_roundtrip_amp_bus_fails :
-  writable ex_amp = false /\ rt_check ex_ts None ex_amp = false /\ rt_status ex_ts None ex_amp = 3.
+  writable ex_amp = false /\ rt_check ex_ts None [] ex_amp = false /\ rt_status ex_ts None [] ex_amp = 3.
 Proof. vm_compute. repeat split. Qed.
+
+(* a float property (2.5e-09, a parameter of the writer model) is written as (number (e 25 -10)); the
+   reader model is outside its subset on it (rt_status 1) *)
+Definition ex_fl : floats :=
+  [((S_ "work", S_ "top_cell", S_ "u1"), [mkxprop (S_ "delay") None (XNum false 25 (-10)%Z)])].
+Example emit_float_example :
+  rt_status ex_ts None ex_fl ex_file = 1 /\
+  xprop_sexp (mkxprop (S_ "delay") None (XNum false 25 (-10)%Z)) =
+    EmOk (SList [KW "property"; Atom (S_ "delay");
+                 SList [KW "number"; SList [KW "e"; Atom (S_ "25"); Atom (S_ "-10")]]]) /\
+  (exists d, emit_file ex_ts None ex_fl ex_file = EmOk d /\
+             existsb (str_eqb (S_ "number")) (flatten d) = true /\ tokenize (print d) = flatten d).
+Proof.
+  split; [vm_compute; reflexivity|]. split; [vm_compute; reflexivity|].
+  eexists. split; [vm_compute; reflexivity|]. split; vm_compute; reflexivity.
+Qed.
